@@ -49,6 +49,7 @@ extern size_t ref_total_events;
 extern double ref_all_true_ts; /* timestamp of the event after which every predicate has held (or -1) */
 extern bool ref_all_true;
 extern size_t ref_all_true_count, ref_stop_lo, ref_stop_hi;
+extern bool ref_truncated;
 
 extern void model_setup(void);      /* builds topology etc.; controller thread, before anything runs */
 extern void reference_run(void);    /* sequential execution with the reference executor */
